@@ -136,6 +136,24 @@ def run_build(sc):
                     res = []
                 ev.append(dict(e="lookup", via_group=False, allow_all=True, table=[t for t in table if t["model"] == m],
                                value=T(b), result=[T(x) for x in res], notfound=len(res) == 0))
+        # lookups follow the data: a field is changed (alter / set) between two lookups on the same key, no device is added
+        for m in ("PV", "Slack"):
+            mdl = ss.models[m]
+            if mdl.n == 0:
+                continue
+            for rnd_ in range(2):
+                for key, val in (("u", 1.0), ("u", 0.0), ("name", "renamed"), ("name", mdl.name.v[0])):
+                    tab = [dict(idx=T(mdl.idx.v[k]), model=m, val=T(mdl.__dict__[key].v[k])) for k in range(mdl.n)]
+                    try:
+                        r = mdl.find_idx(key, [val], allow_none=True, default=None, allow_all=True)[0]
+                        res = [x for x in r if x is not None]
+                    except IndexError:
+                        res = []
+                    ev.append(dict(e="lookup", via_group=False, allow_all=True, table=tab, value=T(val), result=[T(x) for x in res],
+                                   notfound=len(res) == 0))
+                if rnd_ == 0:
+                    mdl.alter("u", mdl.idx.v[-1], 0)
+                    mdl.set("name", mdl.idx.v[0], "v", "renamed")
         # back-references kept by the referenced devices (model level and group level)
         lists = []
         for m in ("PV", "Slack"):
